@@ -174,6 +174,14 @@ class Gen:
                             g = g2
                         except Invalid:
                             pass
+                    g2 = self.memo_checked(g)
+                    if g2 is not None:
+                        try:
+                            check_wellformed(g2)
+                            check_types(g2)
+                            g = g2
+                        except Invalid:
+                            pass
                 return g
             except Invalid:
                 continue
@@ -208,6 +216,50 @@ class Gen:
         alt.parts.insert(self.r.randint(0, len(alt.parts)), piece)
         g.rules.append(one)
         self.kinds["One"] = "struct"
+        return g
+
+    def memo_checked(self, g):
+        """a rule that is both @memoize and @check, re-entered at the same position by the next alternative
+        ( @memoize @check(f) @string MChk = {'a'..'z' | '0'..'9'}+;   MHost = m:MChk '<' | m:MChk '>' | ... ; ): the answer
+        taken from the cache has to be the checked one.  Decided by a side stream derived from the grammar (see wrapped_class)."""
+        import copy
+        import hashlib
+        side = random.Random("memo-checked/" + hashlib.sha256(repr(g).encode()).hexdigest())
+        if side.random() >= 0.5:
+            return None
+        g = copy.deepcopy(g)
+        hosts = [r for r in g.rules if r.kind == "rule" and not r.has("string") and self.kinds.get(r.name) == "struct"]
+        if not hosts or any(g.rule(n) is not None for n in ("MChk", "MHost", "MWord")):
+            return None
+        host = side.choice(hosts)
+        fn = ("check", ["vfrt", "vfu", side.choice(CHECK_FNS) + ("c" if self.user_ctx else "")])
+        word = Cho([Seq([Clo(Cho([Seq([Rng("a", "z")]), Seq([Rng("0", "9")])]), True)])])
+        new = []
+        if side.random() < 0.6:
+            d = ["memoize", fn, "string"]
+            side.shuffle(d)
+            new.append(Rule("MChk", word, d + (["no_skip_ws"] if side.random() < 0.3 else [])))
+            self.kinds["MChk"] = "string"
+        else:
+            d = ["memoize", fn]
+            side.shuffle(d)
+            new.append(Rule("MChk", Cho([Seq([Ref("MWord", "w")] + ([Opt(Cho([Seq([Lit("'"), Ref("MWord", "w")])]))] if side.random() < 0.4 else []))]), d))
+            new.append(Rule("MWord", word, ["string", "no_skip_ws"]))
+            self.kinds["MChk"] = "struct"
+            self.kinds["MWord"] = "string"
+        marks = side.sample(["<", ">", "!", "=>", "..", "?"], 3)
+        alts = [Seq([Ref("MChk", "m"), Lit(marks[0])]), Seq([Ref("MChk", "m"), Lit(marks[1])])]
+        if side.random() < 0.5:
+            alts.append(Seq([Lit(marks[2]), Ref("MChk", "n")]))
+        if side.random() < 0.3:
+            alts.insert(1, Seq([Pos(Ref("MChk")), Ref("MChk", "m"), Lit(marks[2] + marks[0])]))
+        new.insert(0, Rule("MHost", Cho(alts), []))
+        self.kinds["MHost"] = "struct"
+        ref = Ref("MHost", side.choice(self.fieldpool))
+        piece = side.choice([Clo(Cho([Seq([ref])])), Opt(Cho([Seq([ref])])), ref, ref])
+        alt = side.choice(host.body.alts)
+        alt.parts.insert(side.randint(0, len(alt.parts)), piece)
+        g.rules.extend(new)
         return g
 
     def wrapped_class(self, g):
@@ -566,6 +618,20 @@ class Gen:
                 parts.append(("ref", self.r.choice(later_char)))
             else:
                 parts.append(("ref", "char"))
+        # neighbouring parts: a range that starts two code points after (or ends two before) another part leaves a gap of
+        # exactly one character; one that starts right after it leaves none - whatever the code generator does with
+        # adjacent parts, the gap character stays outside the class.  Side stream: the generator's own stream is untouched.
+        gs = random.Random("gap-parts/%s/%d/%r" % (nm, i, parts))
+        if gs.random() < 0.4:
+            plain = [p_ for p_ in parts if p_[0] in ("lit", "rng")]
+            if plain:
+                p_ = gs.choice(plain)
+                lo, hi = ord(p_[1]), ord(p_[-1])
+                k = gs.choice([2, 2, 2, 1, 3])
+                w = gs.randint(0, 3)
+                a, b = (hi + k, hi + k + w) if gs.random() < 0.6 else (lo - k - w, lo - k)
+                if 0x21 <= a <= b <= 0x10FFFF and not (a <= 0xDFFF and b >= 0xD800):
+                    parts.insert(gs.randint(0, len(parts)), ("rng", chr(a), chr(b)))
         cb, ca = [], []
         if self.coin(self.p["p_ccheck"]):
             for _ in range(self.r.randint(1, 2)):
